@@ -176,7 +176,9 @@ func oracleC05() *Result {
 		versions = "5.0,5.6,7.0,7.2,7.3,7.4"
 	}
 	var tasks []Task
-	add := func(b []byte, tag string) { tasks = append(tasks, Task{Oracle: "C05", Cfg: versions, Src: b, Tag: tag}) }
+	add := func(b []byte, tag string) {
+		tasks = append(tasks, Task{Oracle: "C05", Cfg: versions, Src: b, Tag: tag})
+	}
 	for _, c := range regressionInputs("C05") {
 		add(c, "regression")
 	}
